@@ -108,6 +108,8 @@ class bspline(object):
                 bkpt = np.sort(x)[xspot].astype('f')
             else:
                 raise ValueError('No information for bkpts.')
+        bkpt = np.asarray(bkpt)
+        bkpt = bkpt.astype(np.float64 if bkpt.dtype.kind in 'iub' else bkpt.dtype)
         imin = bkpt.argmin()
         imax = bkpt.size - 1 - bkpt[::-1].argmax()
         if x.min() < bkpt[imin]:
